@@ -725,6 +725,14 @@ func (env *specEnv) evalCall(e *SExpr) sval {
 			env.fail(e, "macstr needs a byte slice")
 		}
 		return sval{fv.hwaddrStr(env.cur, v.t), types.Typ[types.String]}
+	case "strcat":
+		// strcat(a, b): the Go string a + b (the engine's uninterpreted concatenation symbol)
+		a, b := env.eval(args[0]), env.eval(args[1])
+		if a.t.Sort != StrSort || b.t.Sort != StrSort {
+			env.fail(e, "strcat needs two strings")
+		}
+		fv.c.DeclareFun("str_cat", []string{StrSort, StrSort}, StrSort)
+		return sval{smt.App(StrSort, "str_cat", a.t, b.t), types.Typ[types.String]}
 	case "netcontains":
 		// netcontains(n, ip): what n.Contains(ip) yields in the current state (n a *net.IPNet)
 		nv := env.eval(args[0])
